@@ -57,8 +57,11 @@ def build_harness(features=()):
         shutil.copy(os.path.join(REPO, "Cargo.lock"), lock)
     tdir = "target" if not key else "target-" + "-".join(key)
     cmd = ["cargo", "build", "--offline", "--bins", "--target-dir", tdir]
-    if key:
-        cmd += ["--features", ",".join(key)]
+    real = [f for f in key if f != "std-hasher"]
+    if "std-hasher" in key:
+        cmd += ["--no-default-features"]      # the crate's std RandomState instead of ahash
+    if real:
+        cmd += ["--features", ",".join(real)]
     env = dict(os.environ)
     env["CARGO_NET_OFFLINE"] = "true"
     t0 = time.time()
